@@ -11,7 +11,8 @@
 use crate::choice::{fnv_str, Src};
 use crate::fw::{catch, Outcome, Report, Stage};
 use crate::pgen::{simplify_prog, Gen, GenCfg};
-use crate::prog::Prog;
+use crate::prog::{Action, Cmd, Prog};
+use crate::refegg::{Model, Stop};
 use crate::runner::{run_text, RunCfg, RunResult};
 use egglog::{CommandOutput, EGraph};
 
@@ -107,8 +108,38 @@ impl Stage for C11 {
         simplify_prog(inp)
     }
     fn check(&self, prog: &Prog) -> Outcome {
-        let text = prog.text();
-        let mut out = Outcome::new(fnv_str(&text));
+        let mut out = Outcome::new(fnv_str(&prog.text()));
+        // A rule that deletes a row which the same iteration also looks up or writes has an order-dependent result
+        // (the engine applies removals before inserts; the property does not define it, and an encoding cannot be
+        // asked to preserve it). The reference model detects exactly that conflict; the history is judged up to the
+        // command before it. Where the model cannot follow the program any more, a history with rule-level deletes
+        // is judged up to the next run.
+        let rule_deletes = prog.cmds.iter().any(|c| matches!(c, Cmd::Rule { head, .. } if head.iter().any(|a| matches!(a, Action::Delete(..)))));
+        let mut keep = prog.cmds.len();
+        if rule_deletes {
+            let mut model = Model::new(&prog.sig);
+            let mut alive = true;
+            for (i, c) in prog.cmds.iter().enumerate() {
+                let runs = matches!(c, Cmd::RunN { .. } | Cmd::Sched(_));
+                if alive {
+                    match model.apply(c) {
+                        Ok(_) | Err(Stop::Error(_)) => {}
+                        Err(Stop::Discard(why)) if why.contains("delete conflicts") => {
+                            out.class("order-dependent-delete(prefix judged)");
+                            keep = i;
+                            break;
+                        }
+                        Err(Stop::Discard(_)) => alive = false,
+                    }
+                }
+                if !alive && runs {
+                    out.class("rule-delete-beyond-model(prefix judged)");
+                    keep = i;
+                    break;
+                }
+            }
+        }
+        let text = if keep == prog.cmds.len() { prog.text() } else { Prog { sig: prog.sig.clone(), cmds: prog.cmds[..keep].to_vec() }.text() };
         judge_text(&text, &mut out);
         out
     }
@@ -197,6 +228,12 @@ pub fn judge_text(text: &str, out: &mut Outcome) {
                 Err(e) => {
                     if e.starts_with("PANIC") {
                         out.fail(format!("panic:reparse:{mode}:{}", crate::fw::panic_key(&e)), e);
+                    } else if e.contains("@container_rebuild") {
+                        // same root cause as the per-command form of this known finding: the generated container
+                        // rebuild rule of a table with two container sorts is ill-typed (here it only shows when the
+                        // printed encoding is resolved again)
+                        out.soft.push(crate::fw::Violation::new("encoding:table-with-two-container-sorts-rejected", format!("[{mode}] {e}")));
+                        out.class("known:two-container-sorts");
                     } else {
                         out.fail(format!("reparsed-encoding-rejected:{mode}"), e);
                     }
